@@ -406,6 +406,9 @@ func oneConcurrent(r *vkit.Run, s *srv, idx int, comp string) (goOn bool) {
 	if comp == "rulelist" || comp == "safesearch" {
 		c.Filler = 1500 // makes compiling the new engine take a while
 	}
+	if isHashComp(comp) {
+		c.HashFiller = 8000 // makes resetting the hash storage take a while
+	}
 	lo := 0
 	if comp == "rulelist" {
 		lo = 1
